@@ -99,6 +99,9 @@ class Interp:
                 f = k.__dict__[name]
                 if isinstance(f, (staticmethod, classmethod)):
                     f = f.__func__
+                # skactiveml.utils.match_signature wraps a method in a descriptor that keeps the function as `.fn`
+                if not inspect.isfunction(f) and inspect.isfunction(getattr(f, "fn", None)):
+                    f = f.fn
                 f = inspect.unwrap(f)
                 try:
                     src = textwrap.dedent(inspect.getsource(f))
